@@ -48,3 +48,27 @@ Definition check01b (c : case01b) : nat :=
   if zl_eqb (zunbroadcast c.(b_ts) c.(b_os) c.(b_g)) c.(b_impl_unb)
      && zl_eqb (zbroadcast c.(b_ts) c.(b_os) c.(b_v)) c.(b_impl_bc)
   then 0%nat else 1%nat.
+
+(* ---- reductions: np.sum(x, axes, keepdims) and its VJP ---- *)
+Fixpoint keep_shape_from (i : nat) (sh axes : list nat) : list nat :=
+  match sh with
+  | [] => []
+  | n :: r => (if existsb (Nat.eqb i) axes then 1%nat else n) :: keep_shape_from (S i) r axes
+  end.
+Definition keep_shape (sh axes : list nat) : list nat := keep_shape_from 0 sh axes.
+Definition zsum_axes (sh axes : list nat) (x : list Z) : list Z := zunbroadcast (keep_shape sh axes) sh x.
+Definition zsum_vjp (sh axes : list nat) (g : list Z) : list Z := zbroadcast (keep_shape sh axes) sh g.
+
+Record case01s := {
+  r_sh : list nat; r_axes : list nat; r_x : list Z; r_g : list Z;
+  r_impl_sum : list Z;        (* numpy.sum(x, axis=axes, keepdims=...), flattened *)
+  r_impl_vjp : list Z;        (* autograd's VJP of that call applied to g, flattened *)
+  r_impl_jvp : list Z;        (* autograd's JVP of that call applied to x itself, flattened *)
+  r_adjoint_ok : bool         (* <g, sum x> = <vjp g, x> and shape(vjp g) = shape(x), on the implementation *)
+}.
+Definition check01s (c : case01s) : nat :=
+  if negb c.(r_adjoint_ok) then 2%nat else
+  if zl_eqb (zsum_axes c.(r_sh) c.(r_axes) c.(r_x)) c.(r_impl_sum)
+     && zl_eqb (zsum_vjp c.(r_sh) c.(r_axes) c.(r_g)) c.(r_impl_vjp)
+     && zl_eqb (zsum_axes c.(r_sh) c.(r_axes) c.(r_x)) c.(r_impl_jvp)
+  then 0%nat else 1%nat.
